@@ -76,6 +76,7 @@ class Session:
                 V.tenv.add_record(rname, rd["fields"], rd.get("mutable"))
         V.tenv.finish()
         V.fstring_injective = getattr(side, "FSTRING_INJECTIVE", {})
+        V.class_bases = getattr(side, "BASES", {})
         if getattr(side, "USES_FS", False):
             from . import fsmodel
             fsmodel.install(V)
